@@ -5,7 +5,7 @@ from .. import initgen
 ID = "C06"
 SUITES = ["init"]
 LEAN_MODULES = ["VpnCloud.Proofs.C06"]
-THEOREMS = []
+THEOREMS = ["VpnCloud.Proofs.C06." + n for n in ("select_spec", "selectRef_symm", "select_symm", "selectRef_perm", "plain_iff_both", "fail_iff_none_common", "selected_is_best", "selected_tiebreak")]
 BATCH = 20
 SEARCH_BUDGET_S = 400
 EXPECTED_CLASSES = ["ideliver:reply", "ideliver:init", "ideliver:err:crypto", "ideliver:err:parse", "ideliver:msg"]
